@@ -143,6 +143,11 @@ def pair_case(draw):
     z = draw(st.sampled_from(["UTC", "UTC", "Europe/Paris", "America/New_York", "Asia/Kolkata", "Australia/Lord_Howe"]))
     u1 = draw(S.uni(-10**15, 3 * 10**15))
     tr = T.transitions(z)
+    if draw(st.integers(0, 9)) == 0:
+        # a few microseconds apart, anywhere between years 2 and 9998 (and right at an offset change when the zone has one)
+        base = tr[draw(st.integers(0, len(tr) - 1))][0] * US if tr and draw(st.booleans()) else draw(S.uni(S.LO_U, S.HI_U))
+        return {"zone": z, "u1": S.clamp_u(base - draw(st.integers(0, 20))), "span": draw(st.integers(1, 40)) * draw(st.sampled_from([1, -1])), "absolute": draw(st.booleans()),
+                "now": draw(st.booleans())}
     if tr and draw(st.integers(0, 2)) == 0:
         # a pair that straddles an offset change by hours (sub-day spans across midnight are decomposed differently from longer ones)
         t = tr[draw(st.integers(0, len(tr) - 1))][0] * US
